@@ -147,8 +147,8 @@ func (g *Gen) Valid() *Req {
 		na = r.Range(2, g.O.MaxAlts)
 	}
 	nc := r.Range(1, g.O.MaxCrit)
-	if q.Method == "choquetIntegral" && nc > 4 {
-		nc = 4
+	if q.Method == "choquetIntegral" && nc > 5 {
+		nc = 5 // 31 capacities; with two added criteria 127
 	}
 	// ids
 	if g.O.WeirdIds {
